@@ -596,6 +596,10 @@ def main(ctx):
         proof_ok, log = ctx.build_props('C07/PropsSpelling.v')
         if not proof_ok:
             ctx.notes['build_log_tail'] = log[-1500:]
+        elif ctx.tier == 'thorough':
+            first = ctx.notes.get('coqchk')
+            ctx.coqchk('C07/PropsSpelling.v')
+            ctx.notes['coqchk'] = {'Props': first, 'PropsSpelling': ctx.notes.get('coqchk')}
 
     # 3. model witness when the per-run obligation fails
     model_witnesses = []
